@@ -516,6 +516,8 @@ type SpecFunc struct {
 	Body    SExpr // nil: uninterpreted
 	PkgPath string
 	Text    string
+	Rec     bool   // recursive definition: declared uninterpreted, unfolded once at every use
+	RecVar  string // the int parameter the recursion descends on
 }
 
 type Axiom struct {
@@ -585,9 +587,19 @@ func (ss *SpecSet) parseContractLines(lines []string, pkgPath, file string) erro
 			}
 			ss.Contracts[k] = cur
 		case "spec":
+			rec := false
+			if strings.HasPrefix(rest, "rec ") {
+				rec = true
+				rest = strings.TrimSpace(strings.TrimPrefix(rest, "rec "))
+			}
 			f, err := parseSpecFunc(rest)
 			if err != nil {
 				return fmt.Errorf("%s: %v", file, err)
+			}
+			if rec {
+				if err := checkRec(f); err != nil {
+					return fmt.Errorf("%s: spec rec %s: %v", file, f.Name, err)
+				}
 			}
 			f.PkgPath = pkgPath
 			if _, dup := ss.Funcs[f.Name]; dup {
@@ -757,4 +769,95 @@ func parseSpecFunc(src string) (f *SpecFunc, err error) {
 		}
 	}
 	return f, nil
+}
+
+// checkRec: a recursive spec function must have the shape  n <= 0 ? base : ... F(.., n - 1, ..) ...
+// (recursion on one int parameter, every recursive call at n - 1): this makes the definition well founded,
+// so adding its unfoldings as assumptions cannot introduce an inconsistency.
+func checkRec(f *SpecFunc) error {
+	c, ok := f.Body.(*SCond)
+	if !ok {
+		return fmt.Errorf("body must be `n <= 0 ? base : step`")
+	}
+	b, ok := c.C.(*SBinary)
+	if !ok || b.Op != "<=" {
+		return fmt.Errorf("condition must be `n <= 0`")
+	}
+	id, ok1 := b.X.(*SIdent)
+	z, ok2 := b.Y.(*SInt)
+	if !ok1 || !ok2 || z.V != "0" {
+		return fmt.Errorf("condition must be `n <= 0`")
+	}
+	idx := -1
+	for i, p := range f.Params {
+		if p.Name == id.Name && (p.Ty == nil || p.Ty.Name == "int") {
+			idx = i
+		}
+	}
+	if idx < 0 {
+		return fmt.Errorf("%s is not an int parameter", id.Name)
+	}
+	var bad error
+	var walk func(x SExpr, inBase bool)
+	walk = func(x SExpr, inBase bool) {
+		switch n := x.(type) {
+		case *SCall:
+			if n.Fun == f.Name {
+				if inBase {
+					bad = fmt.Errorf("recursive call in the base case")
+					return
+				}
+				if idx >= len(n.Args) {
+					bad = fmt.Errorf("bad recursive call")
+					return
+				}
+				a, ok := n.Args[idx].(*SBinary)
+				if !ok || a.Op != "-" {
+					bad = fmt.Errorf("recursive call must be at %s - 1", id.Name)
+					return
+				}
+				ai, ok1 := a.X.(*SIdent)
+				one, ok2 := a.Y.(*SInt)
+				if !ok1 || !ok2 || ai.Name != id.Name || one.V != "1" {
+					bad = fmt.Errorf("recursive call must be at %s - 1", id.Name)
+					return
+				}
+			}
+			for _, a := range n.Args {
+				walk(a, inBase)
+			}
+		case *SUnary:
+			walk(n.X, inBase)
+		case *SBinary:
+			walk(n.X, inBase)
+			walk(n.Y, inBase)
+		case *SCond:
+			walk(n.C, inBase)
+			walk(n.A, inBase)
+			walk(n.B, inBase)
+		case *SIndex:
+			walk(n.X, inBase)
+			walk(n.I, inBase)
+		case *SSlice:
+			walk(n.X, inBase)
+			if n.Lo != nil {
+				walk(n.Lo, inBase)
+			}
+			if n.Hi != nil {
+				walk(n.Hi, inBase)
+			}
+		case *SField:
+			walk(n.X, inBase)
+		case *SQuant:
+			walk(n.Body, inBase)
+		}
+	}
+	walk(c.A, true)
+	walk(c.B, false)
+	if bad != nil {
+		return bad
+	}
+	f.Rec = true
+	f.RecVar = id.Name
+	return nil
 }
